@@ -101,10 +101,10 @@ def targets_of(expr, terms, ctx):
 def valpres(pre, post, *, op="valpres", key="", what="", seeds=(1, 2),
             budget=None, fock="gen", sym=(), antisym=(), extra=None,
             tgt_syms=None, sizes=None, more_sides=None, spin_model=None,
-            model_kw=None, names=None, global_models=None):
+            model_kw=None, names=None, global_models=None, alias_cc=False):
     """Event for a value preserving transformation pre -> post (adcgen Expr
     or sympy).  Raises adapter.Unsupported if a side has no AST."""
-    ctx = adapter.Ctx(names=names)
+    ctx = adapter.Ctx(names=names, alias_cc=alias_cc)
     tp = adapter.project_expr(pre, ctx)
     tq = adapter.project_expr(post, ctx)
     if tgt_syms is not None:
